@@ -610,12 +610,13 @@ def jobs_for(pid, tier):
         "C11": both("entry", ["entry"]) + tmap,
         "C12": core + both("entry", ["entry"]) + setcore + tmap + tset,
         "C13": prof(both("disjoint", ["disjoint"], consts={"Vers": [0], "MaxKs": 3}, bigconsts={"MaxKs": 4}), "asan", "miri") + tmap + tbig,
-        "C16": both("bulk", ["bulk"], bigconsts={"MaxExtra": 1}) + both("setbulk", ["bulk"], mode="set", consts={"MaxExtra": 1}, bigconsts={"Vers": [0]}) + bulk3,
+        # (MaxExtra = 2: an overflow that is not caused by the LAST item of the source - how far the source was consumed is part of the result)
+        "C16": both("bulk", ["bulk"], consts={"MaxExtra": 2}, bigconsts={"MaxExtra": 1}) + both("setbulk", ["bulk"], mode="set", consts={"MaxExtra": 2}, bigconsts={"Vers": [0], "MaxExtra": 1}) + bulk3,
         "C18": shaped(both("unchecked", ["unchecked"], consts={"MaxKs": 3}, bigconsts={"Vers": [0], "MaxKs": 4})) + tmap + tbig,
         "C19": both("fmt", ["fmt", "cursor"]) + core + setcore + pairs("alg", ["algebra"], "set", qcaps[:2] if q else tcaps[:6])
                + ([J("fmt-n3", ["fmt"], consts={"Caps": [3], "Vers": [0], "Vals": [0]}), J("setfmt-n3", ["fmt"], mode="set", consts={"Caps": [3], "Vers": [0]})] if q else []),
         "C08": pairs("alg", ["algebra"], "set", qcaps if q else tcaps) + tset + tbigset + [j for j in micro_bin if j["mode"] == "set"],
-        "C14": tbigset + micro_bin + tmap + tset + (tbig if not q else [])
+        "C14": tbigset + micro_bin + tmap + tset + (tbig if not q else []) + shaped(both("clone", ["clone"]) + both("setclone", ["clone"], mode="set"))
                + [dict(tag="eq4-%s" % md, spec="pair", family=["eq"], mode=md,
                        consts=({"CapA": 4, "CapB": 4, "Classes": [0, 1, 2, 3, 4], "Vals": [0]} if md == "set" or q
                                else {"CapA": 4, "CapB": 4, "Classes": [0, 1, 2, 3], "Vals": [0, 1]})) for md in ("set", "map")]
